@@ -421,6 +421,50 @@ fn stackwin_space() -> Space {
     .sandboxed(sb(1024))
 }
 
+// space D2: postfix programs whose operands sit on the extremes of the evaluators' number ranges, end to end
+// (x86 STACK WIN program strings, 32-bit; amd64 STACK CFI rules, 64-bit): every (a, b, operator) triple
+fn operand_extremes_space() -> Space {
+    const A32: [&str; 11] = ["0", "1", "-1", "2", "2147483647", "-2147483648", "2147483648", "4294967295", "4294967296", "$esp", "$nosuch"];
+    const A64: [&str; 11] = ["0", "1", "-1", "2", "9223372036854775807", "-9223372036854775808", "9223372036854775808", "18446744073709551615", "18446744073709551616", "$rsp", "$nosuch"];
+    const OPS32: [&str; 7] = ["+", "-", "*", "/", "%", "@", "^"];
+    const OPS64: [&str; 7] = ["+", "-", "*", "/", "%", "@", "^"];
+    let n = 2 * 11 * 11 * 7 * 2;
+    let gen = move |idx: u64| -> (Vec<u8>, Vec<u8>, Value) {
+        let d = unrank(idx, &[2, 11, 11, 7, 2]);
+        let (a, b, o) = (d[1] as usize, d[2] as usize, d[3] as usize);
+        let mut stack = vec![];
+        for k in 0..32u32 {
+            stack.extend_from_slice(&(0x40_1010u32 + k).to_le_bytes());
+        }
+        let sp = if d[4] == 0 { 0x7000_0010u64 } else { 8 };
+        let base = if d[4] == 0 { 0x7000_0000u64 } else { 0 };
+        if d[0] == 0 {
+            // "^" is unary in this language: b is left on the stack below it (an assignment with leftovers)
+            let prog = format!("$T0 {} {} {} = $eip .raSearch ^ = $esp .raSearch 4 + =", A32[a], A32[b], OPS32[o]);
+            let rec = format!("STACK WIN 4 1000 100 0 0 0 0 0 0 1 {prog}");
+            let sym = format!("MODULE windows x86 000000000000000000000000000000000 app\nFUNC 1000 100 0 f\n{rec}\n");
+            let w = Wd { cpu: CpuK::X86, platform: md::PlatformId::VER_PLATFORM_WIN32_NT as u32, ip: 0x40_1010, sp, stack_base: base, stack, modules: vec![(0x40_0000, 0x10000, "app")], limits: None, with_exception: false };
+            (build_wd(&w), sym.into_bytes(), json!({"class": "operand-extremes", "record": rec, "sp": format!("{sp:#x}")}))
+        } else {
+            let rec = format!("STACK CFI INIT 1000 100 .cfa: {} {} {} .ra: .cfa -8 + ^ $rbx: {} {} {}", A64[a], A64[b], OPS64[o], A64[b], A64[a], OPS64[o]);
+            let sym = format!("MODULE Linux x86_64 000000000000000000000000000000000 app\nFUNC 1000 100 0 f\n{rec}\n");
+            let w = Wd { cpu: CpuK::Amd64, platform: md::PlatformId::Linux as u32, ip: 0x40_1010, sp, stack_base: base, stack, modules: vec![(0x40_0000, 0x10000, "app")], limits: None, with_exception: false };
+            (build_wd(&w), sym.into_bytes(), json!({"class": "operand-extremes", "record": rec, "sp": format!("{sp:#x}")}))
+        }
+    };
+    let g2 = gen.clone();
+    Space::new(
+        "evaluator-operand-extremes",
+        n,
+        move |idx, l| {
+            let (b, s, d) = gen(idx);
+            run_case(&b, &Some(s), idx, l, &|| d.clone());
+        },
+        move |idx| g2(idx).2,
+    )
+    .sandboxed(sb(1024))
+}
+
 // space E: CFI menus per architecture (CFA below / equal / above sp, memory-free rules), with and without stack memory
 fn cfi_space() -> Space {
     let cpus = [CpuK::Amd64, CpuK::X86, CpuK::Arm, CpuK::Arm64, CpuK::Arm64Old, CpuK::Mips, CpuK::Ppc, CpuK::Ppc64, CpuK::Sparc];
@@ -515,7 +559,7 @@ fn main() {
         let mut def = CheckDef::new(
             "C03",
             "fault_enumeration",
-            "every case = (dump bytes, symbol bytes served to every module, option set rotating over stable_basic / stable_all / unstable_all) through the real process_minidump_with_options and all four renderers in sandboxed workers (panic guard, 8 s wall confirmed by a solo re-run, 768 MiB heap cap), then frame budget (frames <= stack bytes + 2 per thread) and strict JSON validity. Spaces: one-deviation mutations (every 4-aligned offset x width {4,8} x boundary/directory-value menu) of the 54 synthetic seed dumps x 11 symbol menus (quick: shard VERIF_SEED mod 8 of the mutations, completely; thorough: all); all sequences of <= 3 /proc limits lines over 10 line shapes x LF/CRLF; amd64 crash contexts whose instruction bytes run over ALL 2-byte [thorough 3-byte] prefixes x rsp menu; x86 STACK WIN records with every size field in {0,1,4,2^31,2^32-1} x 3 record kinds x 4 esp values; CFI menus (CFA below/equal/above sp, memory-free rules) x 9 CPUs x 5 platforms x stack sizes x 3 placements incl. top of address space; memory-map regions ending at the extremes next to the crash address. distinct_nontrivial = distinct (thread count, per-thread frame count + trust sequence, crash reason, option set).",
+            "every case = (dump bytes, symbol bytes served to every module, option set rotating over stable_basic / stable_all / unstable_all) through the real process_minidump_with_options and all four renderers in sandboxed workers (panic guard, 8 s wall confirmed by a solo re-run, 768 MiB heap cap), then frame budget (frames <= stack bytes + 2 per thread) and strict JSON validity. Spaces: one-deviation mutations (every 4-aligned offset x width {4,8} x boundary/directory-value menu) of the 54 synthetic seed dumps x 11 symbol menus (quick: shard VERIF_SEED mod 8 of the mutations, completely; thorough: all); all sequences of <= 3 /proc limits lines over 10 line shapes x LF/CRLF; amd64 crash contexts whose instruction bytes run over ALL 2-byte [thorough 3-byte] prefixes x rsp menu; x86 STACK WIN records with every size field in {0,1,4,2^31,2^32-1} x 3 record kinds x 4 esp values; every (a, b, operator) triple over an 11-value operand menu on the extremes of the 32-bit (STACK WIN program strings) and 64-bit (STACK CFI rules) ranges x 7 operators x 2 stack placements; CFI menus (CFA below/equal/above sp, memory-free rules) x 9 CPUs x 5 platforms x stack sizes x 3 placements incl. top of address space; memory-map regions ending at the extremes next to the crash address. distinct_nontrivial = distinct (thread count, per-thread frame count + trust sequence, crash reason, option set).",
         );
         def.assumptions = vec![
             "small scope: mutated dumps are one deviation away from a seed; symbol bytes come from a 7-entry menu served to every module".into(),
@@ -523,7 +567,7 @@ fn main() {
             "time and memory budgets are constants (8 s, 768 MiB) far above what the tiny inputs legitimately need, not a function fitted to the input size".into(),
         ];
         def.extra.insert("quick_shard".into(), json!(ctx.seed % 8));
-        def.spaces = vec![limits_space(), stackwin_space(), cfi_space(), regions_space(), opcode_space(ctx.tier), mutated_space(ctx.tier, ctx.seed)];
+        def.spaces = vec![limits_space(), stackwin_space(), operand_extremes_space(), cfi_space(), regions_space(), opcode_space(ctx.tier), mutated_space(ctx.tier, ctx.seed)];
         def
     })
 }
